@@ -53,6 +53,7 @@ type c18Input struct {
 	partial bool
 	comment byte // parser.Config.CommentChar (0: the default '#')
 	fifo    bool // ParseFile on a named pipe fed with text (a path that stats as size 0 but has content)
+	skip    int  // > 0: the reader is a seekable strings.Reader / *os.File already positioned at this offset
 }
 
 func (in c18Input) config() parser.Config {
@@ -94,6 +95,8 @@ func c18Reference(in c18Input) (nodes []string, firstErr string, pnc string) {
 				return false, nil
 			})
 		})
+	} else if in.skip > 0 {
+		evs, ret, pnc = parseWithConfig(strings.NewReader(in.text[in.skip:]), in.config())
 	} else {
 		evs, ret, pnc = parseWithConfig(&countingReader{data: []byte(in.text), limit: in.limit, chunk: in.chunk, partial: in.partial}, in.config())
 	}
@@ -143,6 +146,26 @@ func c18Run(c *core.Ctx, in c18Input, policy string, r *rand.Rand, slowAfter tim
 		}
 		if in.file != "" {
 			p.ParseFile(in.file)
+			return
+		}
+		if in.skip > 0 {
+			// a caller that has already consumed a prefix: the parser must continue from where the reader is
+			if readerJitter == 0 {
+				rd := strings.NewReader(in.text)
+				rd.Seek(int64(in.skip), io.SeekStart)
+				p.ParseStream(rd)
+			} else {
+				f, err := os.CreateTemp(c.Work, "resumed")
+				if err != nil {
+					p.ParseStream(strings.NewReader(in.text[in.skip:]))
+					return
+				}
+				defer os.Remove(f.Name())
+				defer f.Close()
+				f.WriteString(in.text)
+				f.Seek(int64(in.skip), io.SeekStart)
+				p.ParseStream(f)
+			}
 			return
 		}
 		rd := &jitterReader{src: &countingReader{data: []byte(in.text), limit: in.limit, chunk: in.chunk, partial: in.partial}, rnd: rand.New(rand.NewSource(readerSeed)), level: readerJitter}
@@ -309,6 +332,18 @@ func c18Inputs(c *core.Ctx, n int) []c18Input {
 			}
 		}
 	}
+	// seekable readers handed over at an offset > 0 (a header block already consumed by the caller)
+	for i := 0; i < n/25+2; i++ {
+		r := c.Rng("resumed", i)
+		book, log := c10Files(r, true)
+		text := book + log
+		if i%4 == 0 {
+			text = log + "  broken line\n" + book
+		}
+		// cut at the start of a line in the first half
+		cut := strings.Index(text[len(text)/3:], "\n") + len(text)/3 + 1
+		ins = append(ins, c18Input{class: "resumed-reader", text: text, limit: -1, skip: cut})
+	}
 	// paths whose size is reported as 0 although they have content: named pipes and /proc files
 	for i := 0; i < n/25+2; i++ {
 		r := c.Rng("fifo", i)
@@ -350,7 +385,7 @@ func c18Inputs(c *core.Ctx, n int) []c18Input {
 }
 
 func runC18(c *core.Ctx) {
-	c.SetRule("runs: inputs {valid, 1-4 malformed lines, empty/comment-only, reader failing at a random offset, 66 kB line, ParseFile on a regular file / missing path / directory / named pipe / proc file} x parser configuration {default comment character, two others} x consumer policy {A: documented loop, stop at first error or Done; B: drain until Done} x PRNG-chosen jitter (consumer: none/Gosched/50-500us sleep/busy loop before each receive; reader: none/Gosched/sleeps between chunks, chunk sizes 1..whole) x GOMAXPROCS {1,2,16}; harness built with the race detector. Oracle: trace at the consumer boundary == callback parser's nodes before its first error, then that error (A) / the error once, Done, producer exit (B). At every receive the monitor records which side reached the rendezvous first (p: the producer was already blocked in its send, c: the consumer had to wait); the jitter/arrival pattern is part of the case identity and the totals of both arrival orders are in the evidence. Non-trivial = run with >= 1 node or an error; distinct = hash(input, policy, jitter and arrival-order pattern).")
+	c.SetRule("runs: inputs {valid, 1-4 malformed lines, empty/comment-only, reader failing at a random offset, seekable reader handed over at an offset > 0, 66 kB line, ParseFile on a regular file / missing path / directory / named pipe / proc file} x parser configuration {default comment character, two others} x consumer policy {A: documented loop, stop at first error or Done; B: drain until Done} x PRNG-chosen jitter (consumer: none/Gosched/50-500us sleep/busy loop before each receive; reader: none/Gosched/sleeps between chunks, chunk sizes 1..whole) x GOMAXPROCS {1,2,16}; harness built with the race detector. Oracle: trace at the consumer boundary == callback parser's nodes before its first error, then that error (A) / the error once, Done, producer exit (B). At every receive the monitor records which side reached the rendezvous first (p: the producer was already blocked in its send, c: the consumer had to wait); the jitter/arrival pattern is part of the case identity and the totals of both arrival orders are in the evidence. Non-trivial = run with >= 1 node or an error; distinct = hash(input, policy, jitter and arrival-order pattern).")
 	c.Assume("a producer left blocked after a policy-A consumer stops early is not asserted (the property does not promise it)")
 	c.Assume("wall-clock watchdogs are inconclusive unless a goroutine dump shows the producer blocked in a channel send")
 
